@@ -318,3 +318,53 @@ Section ValueRoundTrip.
       rewrite (pobj_rt l HF G f tail ltac:(lia)). reflexivity.
   Qed.
 End ValueRoundTrip.
+
+(* ---------- the fuel of parse_json suffices for every printed value ---------- *)
+Lemma join_len_ge sep (l : list str) : (fold_right (fun x a => length x + a) 0 l <= length (join sep l))%nat.
+Proof.
+  induction l as [|x r IH]; [cbn; lia|]. destruct r as [|y r']; [cbn; lia|].
+  change (join sep (x :: y :: r')) with (x ++ sep ++ join sep (y :: r')). rewrite !app_length. cbn [fold_right] in *. lia.
+Qed.
+
+Lemma quote_len s : (2 <= length (quote s))%nat.
+Proof. unfold quote. cbn [length]. rewrite app_length. cbn. lia. Qed.
+
+Lemma vsize_le_length : forall v, good v -> (vsize v <= length (stringify v))%nat.
+Proof.
+  fix IH 1. intros v G. destruct v as [s|lit|b| |l|l].
+  - cbn [vsize stringify]. pose proof (quote_len s). lia.
+  - cbn [vsize stringify]. cbn [good] in G. destruct G as (sg & ds & fr & -> & _ & (Hne & _) & _). rewrite !app_length. destruct ds; [congruence|cbn; lia].
+  - destruct b; cbn; lia.
+  - cbn; lia.
+  - cbn [vsize stringify]. rewrite !app_length. cbn [length].
+    assert (H : (fold_right (fun x a => S (vsize x) + a) 0 l <= length (join [44%N] (map stringify l)) + 1)%nat).
+    { cbn [good] in G.
+      assert (H1 : (fold_right (fun x a => vsize x + a) 0 l <= fold_right (fun x a => length x + a) 0 (map stringify l))%nat).
+      { induction l as [|x r IHr]; [cbn; lia|]. destruct G as [Gx Gr]. cbn [map fold_right]. specialize (IH x Gx). specialize (IHr Gr). lia. }
+      pose proof (join_len_ge [44%N] (map stringify l)) as H2.
+      assert (H3 : (fold_right (fun x a => S (vsize x) + a) 0 l = length l + fold_right (fun x a => vsize x + a) 0 l)%nat) by (clear; induction l as [|x r IHr]; cbn [fold_right length]; lia).
+      (* each separator pays for one element beyond the first *)
+      assert (H4 : (length l + fold_right (fun x a => length x + a) 0 (map stringify l) <= length (join [44%N] (map stringify l)) + 1)%nat).
+      { clear. induction l as [|x r IHr]; [cbn; lia|]. destruct r as [|y r']; [cbn; lia|].
+        change (join [44%N] (map stringify (x :: y :: r'))) with (stringify x ++ [44%N] ++ join [44%N] (map stringify (y :: r'))).
+        rewrite !app_length. cbn [length map fold_right] in *. lia. }
+      lia. }
+    lia.
+  - cbn [vsize stringify]. rewrite !app_length. cbn [length].
+    set (f := fun kv : str * value => quote (fst kv) ++ [58%N] ++ stringify (snd kv)).
+    assert (H : (fold_right (fun kv a => S (vsize (snd kv)) + a) 0 l <= length (join [44%N] (map f l)))%nat).
+    { cbn [good] in G.
+      assert (H1 : (fold_right (fun kv a => S (vsize (snd kv)) + a) 0 l <= fold_right (fun x a => length x + a) 0 (map f l))%nat).
+      { induction l as [|kv r IHr]; [cbn; lia|]. destruct G as (_ & Gx & Gr). cbn [map fold_right]. specialize (IH (snd kv) Gx). specialize (IHr Gr).
+        unfold f at 1. rewrite !app_length. pose proof (quote_len (fst kv)). cbn [length]. lia. }
+      pose proof (join_len_ge [44%N] (map f l)). lia. }
+    lia.
+Qed.
+
+(* parse_json (fuel = length of the text + 1) reads back every printed value completely *)
+Theorem parse_json_stringify v : good v -> parse_json 1 (stringify v) = JOk v [].
+Proof.
+  intros G. unfold parse_json. rewrite <- (app_nil_r (stringify v)) at 2.
+  apply value_roundtrip; [right; reflexivity|exact G| |exact I].
+  pose proof (vsize_le_length v G). lia.
+Qed.
